@@ -20,6 +20,7 @@ SLOTS = threading.BoundedSemaphore(max(WORKERS, 12))
 
 
 TALLY: dict = {}
+WATCHDOG_S = [120.0]   # per child; the quick tier lowers it (set by c18.run)
 COUNT = [0]   # child processes started (reported by the check as a campaign-independent figure)
 
 
@@ -35,6 +36,7 @@ def run_py(*args, **kwargs):
                 f = f.f_back
             key = next((n for n in names if n.startswith(("campaign_", "known_", "search_", "first", "repeated"))), names[0])
             TALLY[key] = TALLY.get(key, 0) + 1
+        kwargs.setdefault("timeout", WATCHDOG_S[0])
         return _run_py(*args, **kwargs)
 
 
